@@ -100,3 +100,17 @@ fn kf_fragmented_dimensions_wrap() {
     let w = be16(&init, p + 4 + 6 + 2 + 16) as u32;
     assert_eq!(w, 70_000, "avc1 width wrapped");
 }
+
+#[test]
+fn kf_fragmented_sample_duration_wraps() {
+    let cfg = muxide::fragmented::FragmentConfig { width: 640, height: 480, timescale: 90000, fragment_duration_ms: 1000, sps: vec![0x67, 1, 2, 3], pps: vec![0x68, 1], vps: None, av1_sequence_header: None, vp9_config: None };
+    let mut m = muxide::fragmented::FragmentedMuxer::new(cfg);
+    m.write_video(0, 0, &[0, 0, 0, 1, 0x65], true).unwrap();
+    let r = m.write_video((1u64 << 32) + 5, (1u64 << 32) + 5, &[0, 0, 0, 1, 0x41], false);
+    if r.is_err() { return; }
+    let seg = m.flush_segment().unwrap();
+    let p = find(&seg, b"trun");
+    // trun: fullbox(4) sample_count(4) data_offset(4) then per sample duration,size,flags,cts
+    let d0 = be32(&seg, p + 4 + 12) as u64;
+    assert_eq!(d0, (1u64 << 32) + 5, "trun sample duration wrapped");
+}
